@@ -14,6 +14,8 @@ struct Case {
     defined: [bool; 3],
     local: bool,
     uses: Vec<usize>, // 0..3 = use module i, 3..6 = use module (i-3)::name
+    /// module `a` provides the name as an extern type instead of a type definition
+    a_extern: bool,
 }
 
 fn cases(tier: &str) -> Vec<Case> {
@@ -25,7 +27,10 @@ fn cases(tier: &str) -> Vec<Case> {
                 for len in 0..=maxlen {
                     for idx in 0..6usize.pow(len as u32) {
                         let uses = util::decode(idx, &vec![6; len]);
-                        out.push(Case { name, defined: [dmask & 1 != 0, dmask & 2 != 0, dmask & 4 != 0], local, uses });
+                        out.push(Case { name, defined: [dmask & 1 != 0, dmask & 2 != 0, dmask & 4 != 0], local, uses: uses.clone(), a_extern: false });
+                        if dmask & 1 != 0 && name == "X" && len <= 2 {
+                            out.push(Case { name, defined: [true, dmask & 2 != 0, dmask & 4 != 0], local, uses, a_extern: true });
+                        }
                     }
                 }
             }
@@ -38,7 +43,9 @@ fn input_of(c: &Case) -> pipe::Input {
     let mut modules = vec![];
     for (i, (path, fty, _)) in PROVIDERS.iter().enumerate() {
         let mut text = String::new();
-        if c.defined[i] {
+        if c.defined[i] && i == 0 && c.a_extern {
+            text.push_str(&format!("#[size(4), align(4)]\nextern type {};\n", c.name));
+        } else if c.defined[i] {
             text.push_str(&format!("pub type {} {{\n    pub v: {fty},\n}}\n", c.name));
         } else {
             text.push_str("pub type Other {\n    pub v: u8,\n}\n");
